@@ -8,18 +8,22 @@ from scenario import pedigree as PED, phasing as PH
 LEVEL = "other"
 LEVEL_TEXT = ("Deductive, all inputs, on the real sources: CovMonitor (coverage.py: add_read adds one exactly on [begin,end), max_coverage_in_range is the maximum "
               "over the range); the priority queue (priorityqueue.pyx, all operations); and readselect.pyx read through Cython's parser: _slice_read_selection, "
-              "_construct_priorityqueue, _compute_score_for_read, _update_score_for_reads, readselection_helper and readselection. Proved for readselection: every selected index is an input read; for every variant "
+              "_construct_indexes, _construct_priorityqueue, _compute_score_for_read, _update_score_for_reads, readselection_helper and readselection. Proved for readselection: every selected index is an input read; for every variant "
               "index the number of selected reads spanning it (ghost SPANCOUNT, tied to the coverage monitor by 'coverage[k] == count' through every add_read) is <= "
               "max_cov; every read left out spans a variant that is already covered max_cov times (maximality) - with and without preferred sources and bridging; no "
               "KeyError/IndexError/out-of-range C++ access on the way. The family budget f*max(1, k//f) <= k is a lemma over the expression read from phase.py. "
               "The two scoring functions are verified for what the selection relies on (a fresh three-component vector, no existing score written, every accessor in range, "
               "no index into an empty list; which read the queue returns is irrelevant for these properties: pops go through an order-free contract). "
-              "Assumed (listed in the evidence): PriorityQueue.pop = c_pop, _construct_indexes returns consistent indexes, SPANCOUNT's two counting axioms and "
+              "_construct_indexes is verified too: every variant position of every read has an index below len(positions), positions[index] is that position, the "
+              "variant -> reads map has an entry for it, and the index of a read's first variant does not exceed that of its last (dict comprehension, defaultdict(list), "
+              "two loops); SPAN_B/SPAN_E are ghost NAMES of those indices, defined at that call. The C++ read set enters through stated input invariants (READSET_OK: "
+              "positions within a read strictly increase, get_positions() is the strictly increasing list covering them). "
+              "Assumed (listed in the evidence): PriorityQueue.pop = c_pop, those C++ read-set invariants, SPANCOUNT's two counting axioms and "
               "additivity over disjoint unions, termination. Bounded stand-in for those and for the phase.py caller: the compiled readselection on all read sets over "
               "<= 5 variants x <= 4 reads (plus seeded larger ones) x caps 1-3 x bridging x preferred sources against an independent recount (subset, span coverage <= "
               "k, maximality), and whole --ped runs in which the reads handed to the solver are recounted per family.")
-LEVEL_NOTE = ("Proved: coverage.py, priorityqueue.pyx, readselect.pyx (6 functions) and the budget lemma. Trusted: z3/cvc5, vcgen semantics incl. the Cython lowering, the C++ "
-              "ReadSet/Read accessor model. Not proved: the values of the scores, _construct_indexes, select_reads in phase.py (bounded).")
+LEVEL_NOTE = ("Proved: coverage.py, priorityqueue.pyx, readselect.pyx (7 functions) and the budget lemma. Trusted: z3/cvc5, vcgen semantics incl. the Cython lowering, the C++ "
+              "ReadSet/Read accessor model. Not proved: the values of the scores, the C++ ReadSet invariants, select_reads in phase.py (bounded).")
 TECHNIQUE = "contract-based deductive verification of CovMonitor, PriorityQueue and readselect.pyx (vcgen over Cython's parse tree, z3) + bounded runtime contract on the compiled readselection and on run_whatshap"
 D_MODULES = ["contracts.coverage_py", "contracts.priorityqueue_pyx", "contracts.readselect_pyx"]
 EXPLANATION = LEVEL_TEXT
